@@ -144,6 +144,47 @@ def h_dm1(ex, n, cycle='1', dll='j1939-21', sym_lamps=2, cycles=2, stop=True):
     ex.witness()
 
 
+def h_dm1_overlap(ex, n=3, cycle='3/50', cycles=5):
+    """cycle shorter than the BAM it triggers and content that changes every cycle: a cycle that finds the
+    previous transfer still running is legitimately skipped, but whatever a subscriber receives is exactly one
+    of the snapshots the callback supplied - never a mixture"""
+    w = W.World(ex, mode='interleave')
+    w.branching = False
+    sa = Stack(w, 'A', 0x10)
+    sb = Stack(w, 'B', 0x20)
+    snaps = []
+
+    def supply():
+        w.callback_fired()
+        k = len(snaps)
+        dtcs = [{'spn': ex.fresh_int('c%d_spn%d' % (k, i), 0, (1 << 19) - 1), 'fmi': (i + k) % 32, 'oc': ex.fresh_int('c%d_oc%d' % (k, i), 0, 127)} for i in range(n)]
+        snaps.append(dtcs)
+        return {'pl': 1, 'awl': 0, 'rsl': 0, 'mil': 1}, [dict(d) for d in dtcs]
+
+    got = []
+    j1939.Dm1(sb.ca).subscribe(lambda sa_, lamps, dtcs, ts: (w.callback_fired(), got.append(dtcs)))
+    tx = j1939.Dm1(sa.ca)
+    w.run(until=T('1/100'))
+    cyc = Fraction(cycle)
+    tx.start_send(supply, cycletime=cyc)
+    w.run(until=w.now + cyc * cycles + Fraction(1, 2))
+    ex.claim('dm1.overlap.something_received', len(got) >= 1, {'received': len(got), 'supplied': len(snaps)})
+    for g in got:
+        ok = len(g) == n
+        ex.claim('dm1.overlap.dtc_count', ok, {'got': len(g)})
+        if ok:
+            alts = []
+            for sn in snaps:
+                conds = []
+                for x, y in zip(g, sn):
+                    conds += [x['spn'] == y['spn'], x['fmi'] == y['fmi'], x['oc'] == y['oc']]
+                alts.append(sym_and(*conds))
+            ex.claim('dm1.overlap.received_is_one_supplied_snapshot', sym_or(*alts), {'received': len(got), 'supplied': len(snaps)})
+    ex.claim('job_threads_alive', sa.alive() and sb.alive())
+    ex.observe('n', [len(got), len(snaps)])
+    ex.witness()
+
+
 def jobs(tier):
     q = tier == 'quick'
     out = [Job('C16', 'c16:h_dtc_encode', {}, W=64, wall=60), Job('C16', 'c16:h_dtc_decode', {}, W=64, wall=60),
@@ -154,6 +195,8 @@ def jobs(tier):
         out.append(Job('C16', 'c16:h_dm1', {'n': n, 'cycle': cycle, 'sym_lamps': 2 if q else (4 if n <= 2 else 2), 'cycles': 2},
                        W=40, wall=300 if q else 1800, max_paths=5000, validate=1))
     out.append(Job('C16', 'c16:h_dm1', {'n': 1, 'cycle': '1/5', 'sym_lamps': 1, 'cycles': 3}, W=40, wall=300, validate=1))
+    out.append(Job('C16', 'c16:h_dm1_overlap', {'n': 3, 'cycle': '3/50', 'cycles': 5}, W=40, wall=300, validate=1))
+    out.append(Job('C16', 'c16:h_dm1_overlap', {'n': 5, 'cycle': '1/10', 'cycles': 6}, W=40, wall=300, validate=1))
     return out
 
 
@@ -163,7 +206,7 @@ def meta(tier):
                    'lamps: all 5^4 state combinations (split by the solver at the table lookup)',
                    'DM22: all SPN/FMI, destination 0..253, both request kinds',
                    'DM1 end to end on J1939-21 (single frame and BAM), number of codes n in ' + ('{1,2,3,15}' if tier == 'quick' else '{1..20,100,400,445}') + ', every DTC field symbolic, 1-4 lamps symbolic, 2-3 cycles, then stop_send and 3 more cycle times',
-                   'cycle times 0.2 s / 1 s (>= transfer duration)'],
+                   'cycle times 0.2 s / 1 s (>= transfer duration)', 'overlap shape: cycle time shorter than the BAM, trouble codes change every cycle (fresh symbolic SPN/OC per call): every received DM1 equals one supplied snapshot'],
         'outside': ['DM1 over J1939-22 (multi-PG / FD BAM) in this round', 'cycle times shorter than the BAM they trigger', 'several start_send registrations on one Dm1 object'],
         'assumptions': ['reference layouts jv/ref/dm.py from SAE J1939-73 field tables'],
     }
